@@ -20,7 +20,7 @@ RULE = ('one case = (k snapshots, outcome per snapshot in {ok, conversion fails,
 ASSUMPTIONS = ['Future.result(10) timeouts never fire: every accepted task finishes (a task that never finishes is reported as deadlock)',
                'thread switches are explored at source-line granularity inside deep/task/__init__.py and deep/push/push_service.py and at every shim operation',
                'SchedPool models ThreadPoolExecutor(max_workers=2): FIFO queue, lazy worker spawn, worker body transcribed from _WorkItem.run',
-               'previously accepted = submit returned before flush() was called']
+               'previously accepted = submit returned before flush() was called; a submission racing the flush must be refused or drained']
 
 OUTCOMES = ['ok', 'conv', 'exc', 'base', 'slow']
 MODES = ['A', 'F', 'after']
@@ -142,7 +142,7 @@ def make_factory(desc):
                 sched.event('flush-raised', who)
                 return
             # at return: which accepted-before-call futures are unfinished?
-            st['flush'].append(('ok', [i for i, (f, s_) in st['futures'].items() if not f.done()], None))
+            st['flush'].append(('ok', [i for i, (f, s_) in st['futures'].items() if not f.done()], len(st['futures'])))
             sched.event('flush-ret', who)
 
         def app():
@@ -228,6 +228,14 @@ def oracle(ctx, desc):
             late = [order[j] for j in unfinished_at_ret if j < len(order) and order[j] in before]
             if late:
                 ctx.violation('C09/flush-returned-early', f'flush returned while previously accepted {late} unfinished', case, {'log': log})
+            # a submission that races the flush is either accepted - then the flush waits for it - or refused: nothing that was accepted
+            # is still running, or only starts, once flush has returned
+            if st['flush'] and st['flush'][0][0] == 'ok':
+                racing = [order[j] for j in unfinished_at_ret if j < len(order) and order[j] not in before]
+                sent_after = [e[2] for n_, e in enumerate(log) if e[1] == 'send' and n_ > flush_ret and e[2] in st['accepted']]
+                if racing or sent_after:
+                    ctx.violation('C09/accepted-during-flush-not-drained', f'flush() returned; snapshot(s) {racing or sent_after} handed over while it was closing were accepted '
+                                  f'(no refusal) and {"were still unfinished" if racing else "only started to be sent afterwards"}: sent after the flush - after shutdown', case, {'log': log})
             overl = [e for e in log[flush_call:flush_ret] if e[1] == 'send']
             if overl or any(o in ('exc', 'base', 'conv') for o in ov):
                 ctx.nt((tuple(ov), mode, tuple(choices)))
